@@ -94,7 +94,12 @@ def py_behaviour(kind, weighted, n, length, rng, xs=None):
             if kind == "temp" and rng.random() < 0.08:
                 o["bad"] = rng.choice(["neg", "float", "str"])
         elif r < 0.40:
-            o = {"op": "remove_edge", "k": key()}
+            k = key()
+            if kind == "temp" and recent and rng.random() < 0.5:
+                # boundary bias: remove the record with the latest (or earliest) time seen recently
+                pick = max if rng.random() < 0.7 else min
+                k = pick(recent, key=lambda c: c["x"])
+            o = {"op": "remove_edge", "k": k}
         elif r < 0.50:
             o = {"op": "remove_node", "n": rng.choice(u), "keep": kind != "dir" and rng.random() < 0.5}
         elif r < 0.56:
@@ -218,6 +223,9 @@ class Replayer:
             if not self._final:
                 return
             p = {k: ((v[0], 1.0) if isinstance(v, tuple) else 1.0) for k, v in p.items() if k != "filter"}
+        elif self.query_prob < 0.5:
+            # "sparse" traces: pure / derived calls are as rare as the queries
+            p = {k: ((v[0], v[1] * 0.3) if isinstance(v, tuple) else (v if k == "filter" else v * 0.3)) for k, v in p.items()}
         if "filter" in p and rng.random() < p["filter"]:
             ev = D.filter_call(self, oid)
             if ev is not None:
@@ -294,7 +302,8 @@ def _replay_chunk(args):
     out = []
     for (ops, fam, sd) in items:
         r = Replayer(kind, weighted, n, fam, seed=sd, full=full, cc=cc, copies=copies,
-                     queries=queries, plan=plan, exhaustive_derive=exhaustive_derive, late=(sd % 4 == 3))
+                     queries=queries, plan=plan, exhaustive_derive=exhaustive_derive, late=(sd % 4 == 3),
+                     query_prob=(0.25 if sd % 4 == 2 else 0.8))
         tr = r.run(ops)
         out.append((tr, {"family": fam, "seed": sd, "labels": r.b.labels, "skipped": r.skipped, "ops": ops,
                          "late": r.late}))
